@@ -93,6 +93,12 @@ fn enclosing_fn(file: &str, line: u32) -> String {
 
 /// Strips digits and quoted / variable parts so that the message *class* is stable.
 pub fn message_class(msg: &str) -> String {
+    // `unwrap()`/`expect()` on an Err append the error's own text, which varies with the input:
+    // the class is the fixed part before the first ": "
+    let msg = match msg.find(": ") {
+        Some(pos) => &msg[..pos],
+        None => msg,
+    };
     let mut out = String::new();
     let mut in_quote: Option<char> = None;
     for c in msg.chars() {
